@@ -125,7 +125,7 @@ var famRange = NewFamily("C11.range", runRange)
 func init() {
 	register("C11", "exploration", func(c *Ctx) {
 		c11ctx = c
-		c.Rule("streams of 1..12 blocks (B=1024; NONE/NONE, LZ/HUFFMAN, BWT/ANS0; checksum 0/32; last block partial or full) x ALL 1 <= from <= to <= blocks+3 x reader jobs 1..8 x read buffer {700, B, 3B+1}; each range also with a flipped payload bit in every block outside the range; a listener records which blocks reach entropy decoding. Plus E1: all interleavings of the decoding tasks for ranges that fall inside, on and across a batch (jobs 2,3). Oracle: exactly original[(from-1)B : min((to-1)B,len)], then io.EOF, no error; no block outside the range reaches the entropy stage. One evaluation = one (stream, range) decode")
+		c.Rule("streams of 1..12 blocks (B=1024; NONE/NONE, LZ/HUFFMAN, BWT/ANS0; checksum 0/32; last block partial or full) x ALL 1 <= from <= to <= blocks+3 x reader jobs 1..8 x read buffer {700, B, 3B+1}; each range also with a flipped payload bit in every block outside the range; a listener records which blocks reach entropy decoding. Plus streams of 64, 70 and 130 blocks (beyond the 63-block cap of the header hint), size in the header or not, boundary ranges around blocks 63..66 and the end, jobs 1,2,4,64. Plus E1: all interleavings of the decoding tasks for ranges that fall inside, on and across a batch (jobs 2,3). Oracle: exactly original[(from-1)B : min((to-1)B,len)], then io.EOF, no error; no block outside the range reaches the entropy stage. One evaluation = one (stream, range) decode")
 		var specs []e1Spec
 		for _, ft := range [][2]int{{2, 4}, {1, 2}, {3, 3}, {4, 9}, {5, 6}, {6, 8}, {1, 6}} {
 			for _, jobs := range []uint{2, 3} {
@@ -143,6 +143,23 @@ func init() {
 		e1Summary(c, results)
 		famRange.Timeout = 120 * time.Minute // one case = every range of one stream
 		famRange.Each(c, 0, func(emit func(rangeCase)) {
+			// long streams (more blocks than the 63-block cap of the header's block-count hint), with and
+			// without the size in the header: boundary ranges around block 63/64 and around the end
+			for _, nb := range []int{64, 70, 130} {
+				for _, hint := range []int64{-1, int64(nb*1024 - 724)} {
+					for _, j := range []uint{1, 2, 4, 64} {
+						froms := []int{1, 2, 62, 63, 64, 65, 66, nb - 1, nb, nb + 1, nb + 2}
+						for _, from := range froms {
+							for _, to := range []int{from, from + 1, from + 3, 64, 65, nb, nb + 1, nb + 3} {
+								if to < from {
+									continue
+								}
+								emit(rangeCase{P: Params{"NONE", "NONE", 1024, 3, 32, hint, false, false}, Blocks: nb, Tail: 300, Jobs: j, RB: 4096, From: from, To: to})
+							}
+						}
+					}
+				}
+			}
 			for _, cd := range [][2]string{{"NONE", "NONE"}, {"LZ", "HUFFMAN"}, {"BWT", "ANS0"}} {
 				for _, ck := range []uint{0, 32} {
 					for nb := 1; nb <= 12; nb++ {
